@@ -611,6 +611,7 @@ func genPay(r *rand.Rand) *payIn {
 		}
 	}
 	nl := r.Intn(11)
+	big := r.Intn(8) == 0
 	for i := 0; i < nl; i++ {
 		l := lineIn{}
 		lc := p.Currency
@@ -640,6 +641,15 @@ func genPay(r *rand.Rand) *payIn {
 		}
 		small := func() amt {
 			a := randAmt(r, ae)
+			if big {
+				// beyond the exact domain of the float64 product (but far from the int64 range of the
+				// result): only closeness to the exact sum is judged there
+				a.V = r.Int63n(1 << 40)
+				if r.Intn(2) == 0 {
+					a.V = -a.V
+				}
+				return a
+			}
 			// Convert raises an amount coarser than the payment currency to that
 			// precision before multiplying: keep the raised value below 2^26 so that
 			// the product with the rate stays inside the float-exact domain
@@ -1514,6 +1524,25 @@ func judgePay(c *core.Ctx, t tcase, o goOut, resp []string, key string) {
 		if !inDomain {
 			// a product beyond 2^52: Multiply's float64 detour is not exact there (C05's domain); never guessed
 			c.Count("pay:skipped-spec-outside-float-exact-domain", 1)
+			// ... but a product through float64 is still within a few units of the last place of a
+			// 53-bit significand of the exact one: while every figure stays far below 2^62 the total is
+			// close to the exact sum (a wrapped or truncated product is not)
+			if specMagnitude.BitLen() < 62 {
+				var gv, wv int64
+				var ge, we uint32
+				if n1, _ := fmt.Sscanf(goTotal, "%d:%d", &gv, &ge); n1 == 2 {
+					if n2, _ := fmt.Sscanf(want, "%d:%d", &wv, &we); n2 == 2 && ge == we {
+						diff := new(big.Int).Sub(big.NewInt(gv), big.NewInt(wv))
+						tol := new(big.Int).Rsh(specMagnitude, 46)
+						tol.Add(tol, big.NewInt(int64(2*len(p.Lines)+1)))
+						c.Count("pay:outside-exact-domain:closeness-judged", 1)
+						if diff.Abs(diff).Cmp(tol) > 0 {
+							c.Fail("", fmt.Sprintf("payment total %s is far from the sum over the lines of debit minus credit converted with the declared rates, %s (beyond the exact domain of the float64 product, but no float64 error explains a difference of %s units)", goTotal, want, diff), t)
+							return
+						}
+					}
+				}
+			}
 		} else if goTotal != want {
 			c.Fail("", fmt.Sprintf("payment total %s, but the sum over the lines of debit minus credit converted with the declared rates (exact product rounded once to the payment currency) is %s", goTotal, want), t)
 			return
@@ -1537,12 +1566,16 @@ func judgePay(c *core.Ctx, t tcase, o goOut, resp []string, key string) {
 // whether every conversion stays inside the float-exact domain of
 // Props/C20 `convert_is_exact_rounding`: |value·10^max(pe−e,0)·rate value| < 2^52
 // and rate decimals + max(e−pe,0) ≤ 22.
+// specMagnitude: sum of the absolute converted amounts of the last specTotal call (judgement is sequential).
+var specMagnitude = big.NewInt(0)
+
 func specTotal(p *payIn, pe uint32) (string, bool, map[string]int) {
 	total := big.NewInt(0)
 	inDomain := true
 	fam := map[string]int{}
 	scale := new(big.Int).Exp(big.NewInt(10), big.NewInt(int64(pe)), nil)
 	lim := new(big.Int).Lsh(big.NewInt(1), 52)
+	specMagnitude = big.NewInt(0)
 	for _, l := range p.Lines {
 		rate := big.NewRat(1, 1)
 		var rx *rateX
@@ -1576,6 +1609,7 @@ func specTotal(p *payIn, pe uint32) (string, bool, map[string]int) {
 			if neg {
 				n.Neg(n)
 			}
+			specMagnitude.Add(specMagnitude, new(big.Int).Abs(n))
 			total.Add(total, n.Mul(n, big.NewInt(sign)))
 			if rx != nil {
 				switch {
